@@ -216,7 +216,16 @@ class Mon(Driver):
     prop = PROP
 
     def on_step(self, w, a, pre):
-        return [viol("engine:" + n, a, d) for n, d in invariants(w.cs.state)[:3]]
+        vs = [viol("engine:" + n, a, d) for n, d in invariants(w.cs.state)[:3]]
+        if w.opts.get("storage"):
+            # the state a restart would build from the rows written so far obeys the same invariants, and every live entry
+            # that has a path is found under it
+            from ..world import DictStorage
+            st = w.cs.state
+            env.install(w.clock, w.ctr)
+            st2 = SyncState(st.providers, DictStorage(*w.storage.snapshot()), st._tag)
+            vs += [viol("reloaded:" + n, a, d) for n, d in invariants(st2)[:3]]
+        return vs
 
     def on_terminal(self, w):
         return self.observe(w), []
@@ -234,8 +243,11 @@ def engine_jobs(tier):
         for i, sc in enumerate(hs):
             if tier == "quick" and i % 2:
                 continue
-            out.append({"prop": PROP, "cfg": cfg, "order": "asc", "base": "B1", "scripts": A.stamp(sc),
-                        "mode": {"k": None, "cap": 1000 if tier == "quick" else 4000, "depth": 50, "audit": 0}})
+            job = {"prop": PROP, "cfg": cfg, "order": "asc", "base": "B1", "scripts": A.stamp(sc),
+                   "mode": {"k": None, "cap": 1000 if tier == "quick" else 4000, "depth": 50, "audit": 0}}
+            if i % 4 == 0:
+                job["opts"] = {"storage": True}     # also check the state rebuilt from storage after every transition
+            out.append(job)
     return out
 
 
